@@ -118,14 +118,40 @@ theorem mono_test_sound (I : Item T M A) (xs : List T) (p : Nat) (f : T → Bool
 
 /-! ## `Default` is the identity the searches need, for every item that exists -/
 
-/-- `Min`/`MinAdd` (`Default = i64::MAX`) and `Max`/`MaxAdd` (`i64::MIN`): identity on every `i64` value. -/
-theorem minmax_default_identity (a : Int) (h1 : i64Min ≤ a) (h2 : a ≤ i64Max) :
-    (minItem.op (minItem.val minItem.dflt) a = a ∧ minItem.op a (minItem.val minItem.dflt) = a) ∧
-    (maxItem.op (maxItem.val maxItem.dflt) a = a ∧ maxItem.op a (maxItem.val maxItem.dflt) = a) ∧
-    (minAddItem.op (minAddItem.val minAddItem.dflt) a = a ∧ minAddItem.op a (minAddItem.val minAddItem.dflt) = a) ∧
-    (maxAddItem.op (maxAddItem.val maxAddItem.dflt) a = a ∧ maxAddItem.op a (maxAddItem.val maxAddItem.dflt) = a) :=
-  ⟨⟨minItem_dflt_left a h2, minItem_dflt_right a h2⟩, ⟨maxItem_dflt_left a h1, maxItem_dflt_right a h1⟩,
-   ⟨minAddItem_dflt_left a h2, minAddItem_dflt_right a h2⟩, ⟨maxAddItem_dflt_left a h1, maxAddItem_dflt_right a h1⟩⟩
+/-- `Min<T>`/`MinAdd<T>` (`Default = <T as MinMax>::MAX`) and `Max<T>`/`MaxAdd<T>` (`<T as MinMax>::MIN`), for **every**
+    integer element type `ty` (signed or unsigned, any width): two-sided identity on every value of that type.  The
+    bounds are the instantiated type's real bounds `ty.minVal` / `ty.maxVal` (`Model/Common.lean`); that the crate's
+    trait constants are these numbers is compared on every run (`const <type>` lines of the correspondence). -/
+theorem minmax_default_identity (ty : IntTy) (a : Int) (h1 : ty.minVal ≤ a) (h2 : a ≤ ty.maxVal) :
+    ((minItem ty).op ((minItem ty).val (minItem ty).dflt) a = a ∧ (minItem ty).op a ((minItem ty).val (minItem ty).dflt) = a) ∧
+    ((maxItem ty).op ((maxItem ty).val (maxItem ty).dflt) a = a ∧ (maxItem ty).op a ((maxItem ty).val (maxItem ty).dflt) = a) ∧
+    ((minAddItem ty).op ((minAddItem ty).val (minAddItem ty).dflt) a = a ∧
+      (minAddItem ty).op a ((minAddItem ty).val (minAddItem ty).dflt) = a) ∧
+    ((maxAddItem ty).op ((maxAddItem ty).val (maxAddItem ty).dflt) a = a ∧
+      (maxAddItem ty).op a ((maxAddItem ty).val (maxAddItem ty).dflt) = a) :=
+  ⟨⟨minItem_dflt_left ty a h2, minItem_dflt_right ty a h2⟩, ⟨maxItem_dflt_left ty a h1, maxItem_dflt_right ty a h1⟩,
+   ⟨minAddItem_dflt_left ty a h2, minAddItem_dflt_right ty a h2⟩, ⟨maxAddItem_dflt_left ty a h1, maxAddItem_dflt_right ty a h1⟩⟩
+
+/-- the instance the first version of this file stated: at `i64` the bounds are the literals `i64::MIN` / `i64::MAX` -/
+theorem minmax_default_identity_i64 (a : Int) (h1 : i64Min ≤ a) (h2 : a ≤ i64Max) :
+    ((minItem .i64).op ((minItem .i64).val (minItem .i64).dflt) a = a ∧ (minItem .i64).op a ((minItem .i64).val (minItem .i64).dflt) = a) ∧
+    ((maxItem .i64).op ((maxItem .i64).val (maxItem .i64).dflt) a = a ∧ (maxItem .i64).op a ((maxItem .i64).val (maxItem .i64).dflt) = a) ∧
+    ((minAddItem .i64).op ((minAddItem .i64).val (minAddItem .i64).dflt) a = a ∧
+      (minAddItem .i64).op a ((minAddItem .i64).val (minAddItem .i64).dflt) = a) ∧
+    ((maxAddItem .i64).op ((maxAddItem .i64).val (maxAddItem .i64).dflt) a = a ∧
+      (maxAddItem .i64).op a ((maxAddItem .i64).val (maxAddItem .i64).dflt) = a) :=
+  minmax_default_identity .i64 a (by rw [i64_bounds.2]; exact h1) (by rw [i64_bounds.1]; exact h2)
+
+/-- the hypothesis is needed, and it is the *type's own* bound that matters: a `Default` below the type's maximum (what a
+    wrong `<T as MinMax>::MAX` amounts to: e.g. `Min<u64>` seeded with `i64::MAX`) is **not** an identity on the values
+    above it — the search would show the predicate the seed instead of the range minimum. -/
+theorem min_default_needs_type_max (ty : IntTy) (a : Int) (h : ty.maxVal < a) :
+    (minItem ty).op ((minItem ty).val (minItem ty).dflt) a ≠ a := minItem_dflt_not_identity ty a h
+
+/-- identities lift through the overflow guard (`guardItem` keeps `Default` and the observable algebra of the item) -/
+theorem guard_default_identity (I : Item T M A) (G : Guard T M) (a : A) :
+    ((guardItem I G).op ((guardItem I G).val (guardItem I G).dflt) a = I.op (I.val I.dflt) a) ∧
+    ((guardItem I G).op a ((guardItem I G).val (guardItem I G).dflt) = I.op a (I.val I.dflt)) := ⟨rfl, rfl⟩
 
 /-- `Sum`, `SumAdd`, `strCat`: unconditional two-sided identity. -/
 theorem sum_default_identity :
@@ -162,13 +188,13 @@ private def xs5 : List MinAdd := [⟨3, 0⟩, ⟨1, 0⟩, ⟨4, 0⟩, ⟨1, 0⟩
 
 /-- a threshold predicate on a `MinAdd` tree after a range modification: the hypotheses are satisfiable and the
     answers are the expected indices (searches interleaved with a modification, via `history_refines`). -/
-example : ∃ s, Seg.fromSlice minAddItem xs5 = .ok s ∧
-    s.run minAddItem [.modify 0 1 10, .lb 0 (fun x => decide (x.v < 5)), .lbr 4 (fun x => decide (x.v < 5)),
+example : ∃ s, Seg.fromSlice (minAddItem .i64) xs5 = .ok s ∧
+    s.run (minAddItem .i64) [.modify 0 1 10, .lb 0 (fun x => decide (x.v < 5)), .lbr 4 (fun x => decide (x.v < 5)),
                       .lb 4 (fun x => decide (x.v < 5)), .lb 0 (fun _ => true), .lbr 2 (fun _ => false)] =
       [.done, .idx (some 2), .idx (some 3), .idx none, .idx (some 0), .idx none] := by
-  obtain ⟨s, e, h⟩ := fromSlice_refines minAddItem minAddItem_lawful xs5 (by simp [xs5])
+  obtain ⟨s, e, h⟩ := fromSlice_refines (minAddItem .i64) (minAddItem_lawful .i64) xs5 (by simp [xs5])
   refine ⟨s, e, ?_⟩
-  rw [run_refines minAddItem minAddItem_lawful _ s xs5 h]
+  rw [run_refines (minAddItem .i64) (minAddItem_lawful .i64) _ s xs5 h]
   · decide
   · refine ⟨trivial, ⟨by decide, ⟨fun a => decide (a < 5), fun _ => rfl⟩, monoFwd_sound _ _ _ _ (by decide)⟩,
       ⟨by decide, ⟨fun a => decide (a < 5), fun _ => rfl⟩, monoBwd_sound _ _ _ _ (by decide)⟩,
@@ -191,8 +217,23 @@ example : (lb sumItem (.node ⟨0⟩ (.leaf ⟨5⟩) (.leaf ⟨-5⟩)) ⟨0⟩ (
   rw [lb, if_pos (by decide)]
 
 /-- the domain of `minmax_default_identity` is inhabited at its boundary -/
-example : minItem.op (minItem.val minItem.dflt) i64Max = i64Max ∧ maxItem.op (maxItem.val maxItem.dflt) i64Min = i64Min := by
+example : (minItem .i64).op ((minItem .i64).val (minItem .i64).dflt) i64Max = i64Max ∧
+    (maxItem .i64).op ((maxItem .i64).val (maxItem .i64).dflt) i64Min = i64Min := by
   decide
+
+/-- …and at the unsigned / narrow types the correspondence instantiates: the all-ones `u64::MAX`, `u8::MAX`, `i8::MIN`
+    are values of the type and the default is an identity on them; `i64::MAX` as the seed of a `Min<u64>` search is not -/
+example : (minItem ⟨false, 64⟩).op ((minItem ⟨false, 64⟩).val (minItem ⟨false, 64⟩).dflt) 18446744073709551615 = 18446744073709551615 ∧
+    (minAddItem ⟨false, 8⟩).op 255 ((minAddItem ⟨false, 8⟩).val (minAddItem ⟨false, 8⟩).dflt) = 255 ∧
+    (maxAddItem ⟨true, 8⟩).op ((maxAddItem ⟨true, 8⟩).val (maxAddItem ⟨true, 8⟩).dflt) (-128) = -128 ∧
+    (minItem .i64).op ((minItem .i64).val (minItem .i64).dflt) 18446744073709551615 ≠ 18446744073709551615 := by
+  decide
+
+/-- a search on a guarded `Min<u64>` whose elements are above `i64::MAX` (an all-ones "free slot" marker): the first index
+    whose prefix minimum is below the marker -/
+example : Spec.first (guardItem (minItem ⟨false, 64⟩) noGuard)
+      [(⟨18446744073709551615⟩, true), (⟨18446744073709551615⟩, true), (⟨5⟩, true), (⟨18446744073709551615⟩, true)] 0
+      (fun x => decide (x.1.v < 18446744073709551615)) = some 2 := by decide
 
 /-- canonical residues exist (e.g. a leaf), so `affHash_default_identity` is not vacuous -/
 example : AffCanon (affHashItem.val (affLeaf 5)) := by unfold AffCanon; decide
